@@ -35,7 +35,19 @@ def is_setlike(M, fn, e, setvars):
         return True
     if isinstance(e, ast.Attribute) and isinstance(e.value, ast.Name) and e.value.id == 'self' and fn.cls is not None and isinstance(e.ctx, ast.Load):
         return e.attr in _set_fields(M, fn.cls)
+    if isinstance(e, ast.Call) and isinstance(e.func, ast.Attribute) and isinstance(e.func.value, ast.Name) and e.func.value.id == 'self' and fn.cls is not None:
+        return _returns_set(M, fn.cls, e.func.attr)
     return False
+
+
+def _returns_set(M, cls, name):
+    """every return of the method is a set / frozenset construction: calling it yields a set (whose order matters where the caller iterates it)"""
+    m = cls.lookup(name)
+    if m is None or m.is_property:
+        return False
+    rets = [n.value for n in ast.walk(m.node) if isinstance(n, ast.Return) and n.value is not None]
+    return bool(rets) and all(isinstance(v_, (ast.Set, ast.SetComp)) or (isinstance(v_, ast.Call) and isinstance(v_.func, ast.Name) and v_.func.id in ('set', 'frozenset') and v_.args)
+                              for v_ in rets)
 
 
 def _set_fields(M, cls):
@@ -55,7 +67,9 @@ def _set_fields(M, cls):
                         if isinstance(t, ast.Attribute) and isinstance(t.value, ast.Name) and t.value.id == 'self':
                             vals.setdefault(t.attr, []).append((m, n.value))
     out = {f_ for f_, vs in vals.items() if vs and all(isinstance(v_, (ast.Set, ast.SetComp)) or (isinstance(v_, ast.Call) and isinstance(v_.func, ast.Name)
-                                                                                                 and v_.func.id in ('set', 'frozenset') and v_.args) for _, v_ in vs)}
+                                                                                                 and v_.func.id in ('set', 'frozenset') and v_.args) or
+                                                       (isinstance(v_, ast.Call) and isinstance(v_.func, ast.Attribute) and isinstance(v_.func.value, ast.Name) and v_.func.value.id == 'self'
+                                                        and _returns_set(M, cls, v_.func.attr)) for _, v_ in vs)}
     cache[cls.name] = out
     return out
 
@@ -151,7 +165,9 @@ def set_order(ctx):
             elif isinstance(par, ast.Starred):
                 use = 'unpacked'
             elif isinstance(par, ast.Return):
-                use = 'returned'
+                # handed to the caller as a set: its order matters where the caller iterates it (calls of a method that returns a set, and fields assigned from
+                # one, are set-typed expressions for this scan)
+                continue
             elif isinstance(par, ast.Attribute) and par.attr == 'pop':
                 use = 'popped'
             elif isinstance(par, (ast.BoolOp, ast.UnaryOp, ast.If, ast.IfExp, ast.While)):
@@ -538,7 +554,8 @@ def shared_state(ctx):
                     continue
                 if not ok and isinstance(n, ast.Assign) and any(isinstance(t_, ast.Subscript) and isinstance(t_.value, ast.Name) and t_.value.id == name and
                                                                  any(isinstance(r_, ast.Subscript) and isinstance(r_.ctx, ast.Load) and isinstance(r_.value, ast.Name) and r_.value.id == name
-                                                                     and ast.unparse(r_.slice) == ast.unparse(t_.slice) for r_ in ast.walk(inner.node)) for t_ in n.targets):
+                                                                     and ast.unparse(r_.slice) == ast.unparse(t_.slice) for r_ in ast.walk(inner.node)) for t_ in n.targets) \
+                        and isinstance(n.value, ast.Call) and isinstance(n.value.func, ast.Name) and n.value.func.id in ('tuple', 'frozenset', 'str', 'float', 'int'):
                     # a process-wide memo (look the key up, compute and file it on a miss): harmless iff the key carries everything an entry depends on and the entries
                     # are never changed by those who receive them - not decided for module-level tables
                     ctx.undecided('C18.shared', 'module-level state %s.%s is never written at run time (%s)' % (mod, name, fn.qn), fn.site(n),
